@@ -615,7 +615,8 @@ class Spy:
             setattr(self.cat, n, v)
 
 
-NAME_PARTS = ['a', 'cat', 'x.y', 'my.cat.v2', '.hidden', 'out..', 'A_b-c', 'img_comp', '..', 'd.ir', 'sub.dir.x']
+NAME_PARTS = ['a', 'cat', 'x.y', 'my.cat.v2', '.hidden', 'out..', 'A_b-c', 'img_comp', '..', 'd.ir', 'sub.dir.x', 'sources.table', 'f.csv_v2',
+              'img.fits', 'run.tab.d']
 EXTS = ['csv', 'tab', 'tex', 'vot', 'xml', 'vo', 'fits', 'db', 'sqlite', 'ann', 'reg', 'html', 'hdf5', 'CSV', 'Fits', 'VOT',
         'txt', 'bla', '', 'csv.gz', 'fits.bak', 'TAB', 'Db']
 
@@ -791,7 +792,10 @@ def corr_split(ctx, exprs, checks, n):
             firsts.add(d['k'])
             d['g'] = (gmode == 'all') or (gmode == 'first' and isfirst) or (gmode == 'later' and not isfirst)
         prefix = rng.choice([None, None, 'p', 'my_pre', 'ra'])
-        f = rng.choice(['o.csv', 'x.y.tab', 'deep.name.tex', 'q.fits', 'v.vot'])
+        # also names in which the text of the extension occurs earlier in the name (the per-type files are <root>_comp<ext> etc.
+        # with (root, ext) = os.path.splitext: only the LAST occurrence is the extension)
+        f = rng.choice(['o.csv', 'x.y.tab', 'deep.name.tex', 'q.fits', 'v.vot', 'sources.table.tab', 'field.csv_v2.csv', 'img.fits.fits',
+                        'a.tex.tex', 'x.votable.vot'])
         case = {'filename': f, 'prefix': prefix, 'kinds': [d['k'] for d in desc], 'galactic': [d['g'] for d in desc]}
         sp = split_problem(desc, f, prefix)
         if sp:
